@@ -38,6 +38,9 @@ CONT_REP = ["M2", "Fa", "Ss", "B"]
 # names that start with an underscore, unqualified and as members of a named scope
 LEAVES_UND = [("dl", "_a"), ("de", "_a"), ("r", "_a"), ("q", "s._a"), ("dl", "a_1"), ("q", "s.a_1")]
 CONT_UND = ["B", "Ss", "M"]
+# expansion-time references (.if over the name, := from the name) next to labels and constants of the same spelling in other scopes
+LEAVES_EXP = [("dc", "a"), ("dl", "a"), ("r", "a"), ("rx", "a"), ("rc", "a"), ("de", "a")]
+CONT_EXP = ["B", "Ss", "M"]
 CONT_FULL = ["B", "Ss", "St", "M", "F"]
 LEAVES_RED = [("dl", "a"), ("dl", "b"), ("de", "a"), ("r", "a"), ("r", "b"), ("q", "s.a")]
 CONT_RED = ["B", "Ss", "M"]
@@ -46,8 +49,8 @@ ORG = 0x018000
 
 def bound(tier):
     if tier == "thorough":
-        return "all trees with <=5 items over 10 leaves + 5 containers, depth <=3; all trees with 6 items over 6 leaves + 3 containers; all trees with <=6 items over the 6+2 early-evaluation alphabet ; all trees with one item fewer over the 6+4 repeated-application alphabet and over the 6+3 underscore-names alphabet"
-    return "all trees with <=4 items over 10 leaves + 5 containers, depth <=3; all trees with 5 items over 6 leaves + 3 containers; all trees with <=5 items over the 6+2 early-evaluation alphabet ; all trees with one item fewer over the 6+4 repeated-application alphabet and over the 6+3 underscore-names alphabet"
+        return "all trees with <=5 items over 10 leaves + 5 containers, depth <=3; all trees with 6 items over 6 leaves + 3 containers; all trees with <=6 items over the 6+2 early-evaluation alphabet ; all trees with one item fewer over the 6+4 repeated-application alphabet and over the 6+3 underscore-names and 6+3 expansion-time-reference alphabets"
+    return "all trees with <=4 items over 10 leaves + 5 containers, depth <=3; all trees with 5 items over 6 leaves + 3 containers; all trees with <=5 items over the 6+2 early-evaluation alphabet ; all trees with one item fewer over the 6+4 repeated-application alphabet and over the 6+3 underscore-names and 6+3 expansion-time-reference alphabets"
 
 
 def seqs(n, d, leaves, conts):
@@ -89,6 +92,13 @@ def cases(tier, seed):
     for n in range(1, red_n):
         for fi in range(len(LEAVES_UND) + len(CONT_UND)):
             yield ("trees", "und", n, fi, None, False)
+    for n in range(1, red_n + 1):
+        for fi in range(len(LEAVES_EXP) + len(CONT_EXP)):
+            if n >= 5:
+                for fj in range(len(LEAVES_EXP) + len(CONT_EXP) + 1):
+                    yield ("trees", "exp", n, fi, fj, False)
+            else:
+                yield ("trees", "exp", n, fi, None, False)
     for n in range(1, red_n):
         for fi in range(len(LEAVES_REP) + len(CONT_REP)):
             if n >= 5:
@@ -109,7 +119,7 @@ def trees_for(alpha, n, fi, fj):
     """Trees of cost n whose first item is item #fi of the alphabet (and, if fj is given, whose second top-level
     item is #fj, with fj == len(alphabet) meaning 'there is no second top-level item')."""
     leaves, conts = {"full": (LEAVES_FULL, CONT_FULL), "red": (LEAVES_RED, CONT_RED), "early": (LEAVES_EARLY, CONT_EARLY),
-                     "rep": (LEAVES_REP, CONT_REP), "und": (LEAVES_UND, CONT_UND)}[alpha]
+                     "rep": (LEAVES_REP, CONT_REP), "und": (LEAVES_UND, CONT_UND), "exp": (LEAVES_EXP, CONT_EXP)}[alpha]
     nl = len(leaves)
 
     def first_item(n, d, idx):
@@ -167,6 +177,11 @@ def to_program(tree, swap=False, extra_in=None):
                 out.append(("data", "dw", [S(nm(it[1]))]))
             elif k == "ri":
                 out.append(("ins", "lda", "", ("", "", ""), S(nm(it[1]))))
+            elif k == "rx":
+                out.append(("if", S(nm(it[1])), [("data", "db", [N(0x5A)])], [("data", "db", [N(0xA5)])]))
+            elif k == "rc":
+                out.append(("const", f"w{pos}", ("b", "+", S(nm(it[1])), N(1))))
+                out.append(("data", "dw", [S(f"w{pos}")]))
             elif k == "re":
                 out.append(("eq", f"u{pos}", ("b", "+", S(nm(it[1])), N(1))))
                 out.append(("data", "dw", [S(f"u{pos}")]))
